@@ -97,6 +97,10 @@ type mapIter struct {
 	pos   int
 }
 
+// StdRef: the value of a package-level variable of a standard-library package
+// that is only meaningful to a model (e.g. unicode.Mn)
+type StdRef struct{ Name string }
+
 // unsafe.StringData result
 type StrData struct{ S Str }
 
